@@ -1,6 +1,7 @@
 package main
 
 import (
+	"regexp"
 	"fmt"
 	"strconv"
 	"strings"
@@ -67,6 +68,7 @@ func runC15(e *env) {
 			e.m.fail(oracleFailure{What: "the test binary failed: " + r.RunErr, Input: spec})
 		}
 		returned := map[string]bool{}
+		notReturned := map[string]string{}
 		var vals []string
 		variation := map[string]int{}
 		order := []string{}
@@ -84,6 +86,7 @@ func runC15(e *env) {
 				}
 				if strings.Contains(rec.Msg, "does not terminate") {
 					returned[rec.Type] = false
+					notReturned[rec.Type] = rec.Msg
 					e.m.count("calls_not_terminating")
 					continue
 				}
@@ -98,7 +101,11 @@ func runC15(e *env) {
 					}
 				}
 				if !rec.OK {
-					e.m.fail(oracleFailure{What: "rand" + rec.Type + "(): " + rec.Msg, Input: map[string]interface{}{"module": spec, "type": rec.Type, "value": rec.JSON}, Class: classifyRand(rec)})
+					cls := classifyRand(rec)
+					if cls == "" && strings.Contains(rec.Msg, "marshal panics") && strings.Contains(rec.Msg, "exhaustive switch") && hasSkippedUnionField(spec, obs[i]) {
+						cls = "randdata-skipped-union-field-stays-nil"
+					}
+					e.m.fail(oracleFailure{What: "rand" + rec.Type + "(): " + rec.Msg, Input: map[string]interface{}{"module": spec, "type": rec.Type, "value": rec.JSON}, Class: cls})
 				} else {
 					e.m.sample(map[string]interface{}{"module": spec.Name, "type": rec.Type, "value": rec.JSON})
 				}
@@ -121,7 +128,7 @@ func runC15(e *env) {
 			}
 		}
 		cases = append(cases, fmt.Sprintf("{| c15_prog := %s;\n c15_enums := %s;\n c15_ana := %s;\n c15_runs := %s;\n c15_vals := %s |}", obs[i].Facts, obs[i].Enums, obs[i].Ana, coqList(runs), coqListNL(vals)))
-		inputs = append(inputs, map[string]interface{}{"module": spec, "returned": returned, "class": cls, "class_scope": "property-only"})
+		inputs = append(inputs, map[string]interface{}{"module": spec, "returned": returned, "not_returned": notReturned, "class": cls, "class_scope": "property-only"})
 		if len(cases) == 4 {
 			e.writeCases2(fmt.Sprintf("cases_C15_%d", len(e.m.CaseFiles)), anaHeader+"From GM Require Import Model.RandData Sem.GoJson Sem.GoVal Sem.RandSem Corr.Check_C15.\nLocal Open Scope Z_scope.\nNotation rc := Build_rcall.\n", "mismatches", "prop_failures", cases, inputs)
 			cases, inputs = nil, nil
@@ -137,6 +144,26 @@ func classifyRand(r binRecord) string {
 		return "named-time-type-without-json-methods"
 	}
 	return ""
+}
+
+var reDataIgnoredField = regexp.MustCompile("(?m)^\\t\\w+ (\\w+) .*gomacro-data:\"ignore\"")
+
+// a field of union type skipped for data generation stays nil, and the generated JSON routines panic on a nil union
+func hasSkippedUnionField(m *modSpec, o *obsResult) bool {
+	unions := map[string]bool{}
+	for _, n := range o.Nameds {
+		if n.Kind == "KdUnion" {
+			unions[n.Local] = true
+		}
+	}
+	for _, f := range m.Files {
+		for _, g := range reDataIgnoredField.FindAllStringSubmatch(f.Src, -1) {
+			if unions[g[1]] {
+				return true
+			}
+		}
+	}
+	return false
 }
 
 // empty structs and [0]T arrays admit a single value
@@ -169,6 +196,7 @@ func corpusRand() []*modSpec {
 			modFile{"shared/models/models.go", "package models\n\ntype Status int\n\nconst (\n\tPending Status = iota + 1\n\tPaid\n\tShipped\n)\n\ntype Currency string\n\nconst (\n\tEUR Currency = \"EUR\"\n\tUSD Currency = \"USD\"\n)\n\ntype Payment interface{ isPayment() }\ntype Card struct{ N int }\ntype Cash struct{ Amount int }\n\nfunc (Card) isPayment() {}\nfunc (Cash) isPayment() {}\n"}),
 		mk("rand-embedded-pointer", "package models\n\ntype Audit struct {\n\tAuthor string\n\tAt int\n}\n\ntype Meta struct{ Tags []string }\n\ntype Record struct {\n\t*Audit\n\tMeta\n\tTitle string\n}\n"),
 		mk("rand-maps-with-few-keys", "package models\n\ntype Color int\n\nconst (\n\tRed Color = iota\n\tGreen\n\tBlue\n)\n\ntype Level string\n\nconst (\n\tLow Level = \"low\"\n\tHigh Level = \"high\"\n)\n\ntype Palette struct {\n\tWeights map[Color]int\n\tLevels map[Level][]int\n\tNames map[string]Color\n}\n"),
+		mk("rand-skipped-union-field", "package models\n\ntype Shape interface{ isShape() }\n\ntype Circle struct{ R int }\n\nfunc (Circle) isShape() {}\n\ntype Holder struct {\n\tName string\n\tS Shape `gomacro-data:\"ignore\"`\n}\n\ntype Box struct{ H Holder }\n"),
 		mk("rand-empty", "package models\n\ntype Empty struct{}\ntype OnlyHidden struct{ a int }\ntype Zero [0]int\n\ntype S struct {\n\tE Empty\n\tO OnlyHidden\n\tZ Zero\n}\n"),
 	}
 }
